@@ -97,7 +97,17 @@ def _has_dead_tail(blk):
     return False
 
 
-LOOPFREE = {"asg", "use", "ret", "raise", "if", "try", "tryelse", "tryf"}
+LOOPFREE = {"asg", "use", "ret", "raise", "if", "try", "tryelse", "tryf", "while", "for", "brk", "cont"}
+
+
+def _has_loop_else(blk):
+    for st in blk:
+        if st[0] in ("while", "for") and st[2]:
+            return True
+        for sub in st[1:]:
+            if isinstance(sub, tuple) and _has_loop_else(sub):
+                return True
+    return False
 
 
 def _kinds(blk, acc):
@@ -120,7 +130,7 @@ def skeletons(tier):
                 continue
             if _has_dead_tail(blk):
                 continue        # a statement directly after return/raise/break/continue in the same block is dead code: no path, no claim
-            if size == 5 and not _kinds(blk, set()) <= LOOPFREE:
+            if size == 5 and (not _kinds(blk, set()) <= LOOPFREE or _has_loop_else(blk)):
                 continue
             out.append(blk)
     return out
